@@ -2147,7 +2147,8 @@ bool Parser::parseDirectDeclarator(DeclaratorSyntax*& decltor,
 
     if (peek().kind() == SyntaxKind::ColonToken
             && decltorForm == DeclaratorForm::Concrete
-            && declCtx == DeclarationContext::StructOrUnion) {
+            && declCtx == DeclarationContext::StructOrUnion
+            && decltor->kind() != SyntaxKind::BitfieldDeclarator) {
         auto bitFldDecltor = makeNode<BitfieldDeclaratorSyntax>();
         bitFldDecltor->innerDecltor_ = decltor;
         decltor = bitFldDecltor;
